@@ -47,7 +47,14 @@ def main() -> int:
     patch = seed / "patch.diff"
     demo = seed / "demo.py"
     tmp = pathlib.Path(tempfile.mkdtemp(prefix="cvseed."))
-    meta = {"seed": seed.name, "property": prop, "needs_to_manifest": needs}
+    if not needs and (seed / "notes.md").exists():
+        lines = [l.strip(" -*#") for l in (seed / "notes.md").read_text().splitlines() if l.strip(" -*#")]
+        needs = next((re.sub(r"\s+", " ", l) for l in lines if re.search(r"[Nn]eeds|manifest|only shows|[Tt]rigger", l)), "")
+    what = ""
+    if (seed / "notes.md").exists():
+        lines = [l.strip(" -*#") for l in (seed / "notes.md").read_text().splitlines() if l.strip(" -*#")]
+        what = next((re.sub(r"\s+", " ", l) for l in lines if re.search(r"[Cc]hange|becomes|replac|now|instead", l)), lines[0] if lines else "")
+    meta = {"seed": seed.name, "property": prop, "what": what[:400], "needs_to_manifest": needs[:600]}
     try:
         clean = tmp / "clean"
         mut = tmp / "mut"
